@@ -14,6 +14,7 @@ import io, contextlib, itertools, math, random, re
 import core
 from core import hx
 from runner import Case
+from props import _d_hist as H
 
 THEOREMS = [
     "C06.record_exact", "C06.record_exact_all", "C06.rows_complete", "C06.dict_complete_assign", "C06.dict_complete", "C06.paths_distinct",
@@ -68,7 +69,7 @@ NEWICK_NAMES = ["a", "b", "ab", "a b", "a.b", "0", "1", "10", "007", 'x"y', "(",
                 "(a,b)", "[k=v]", "a=b", ")(", "::", " a", "a ", "node0", "&&NHX:", "B", "C d", " (a", "b: ", " , ", "a\tb", "x[ "]
 SIMPLE_NAMES = ["a", "b", "c", "d", "e", "f", "g", "h"]
 PRINT_NAMES = ["a", "b", "c", "ab", "a b", "a.b", "0", "10", "x(y", "a:b", "[z]", "A", "q,r", "a=b", "b c d"]
-KEYS = ["A", "B", "K1", "C c", "Z.z", "_h"]
+KEYS = ["A", "B", "K1", "C c", "Z.z", "_h", "names", "name_2"]
 NEWICK_KEYS = ["A", "B", "K1", "C D", "K=", "(X)"]
 STR_VALS = ["x", "y z", "q:r", "", "1", "U,V", "[w]", "a=b", '"']
 COLNAMES = ["AGE", "col b", "Q", "name", "A", "path"]
@@ -610,6 +611,16 @@ def gen(rng: random.Random, tier: str):
         if s:
             add(mk({"fmt": "newick", "op": "parse", "s": s, "la": rng.choice(["length", "L"]),
                     "ap": rng.choice(["&&NHX:", "&&NHX:", ""])}, ("parse", "mutated")))
+    # ---- the same requests on history-built trees (depth / path memos of an implementation must not survive the edits)
+    extra = []
+    for c in cases:
+        if "corpus" in c.tags or "large" in " ".join(c.tags):
+            continue
+        if c.data["fmt"] in ("dict", "nested", "pandas", "polars", "print") and rng.random() < 0.2:
+            h = with_edit_history(rng, c)
+            if h is not None:
+                extra.append(h)
+    cases += extra
     return cases
 
 
@@ -637,8 +648,49 @@ def _build(d):
         for n, (_a, sp) in zip(nodes, core.spec_nodes(d["spec"])):
             n.name = sp[0]
         return root, nodes, nodes[d["start"]]
+    if d.get("hist") == "edits":
+        # the tree reaches d["spec"] through a history: built as hinit, every derived property read (depth, max_depth,
+        # path_name, a depth-bounded iteration), then moved / re-attached / re-ordered / emptied-and-refilled
+        import bigtree
+        root, objs = core.build_node_tree(d["hinit"], sep=d.get("sep", "/"))
+        for n in objs:
+            _ = (n.depth, n.max_depth, n.path_name, n.is_leaf, n.get_attr("depth"))
+        _ = list(bigtree.preorder_iter(root, max_depth=2)), list(bigtree.levelorder_iter(root, max_depth=3))
+        for e in d["hedits"]:
+            H.apply_real(objs, e)
+            if e[0] in ("move", "delre"):
+                _ = [n.depth for n in objs[:3]]
+        _f, order = H.final(d["hinit"], d["hedits"])
+        nodes = [objs[i] for i in order]
+        return root, nodes, nodes[d["start"]]
     root, nodes = core.build_node_tree(d["spec"], sep=d.get("sep", "/"))
     return root, nodes, nodes[d["start"]]
+
+
+def _tolist(t):
+    return [t[0], dict(t[1]), [_tolist(c) for c in t[2]]]
+
+
+def with_edit_history(rng, case):
+    """the same request on a tree that reaches its shape through a history of structural edits (None if unsuitable)"""
+    d = case.data
+    if d.get("hist") or d["fmt"] not in ("dict", "nested", "pandas", "polars", "print") or d.get("full") and False:
+        return None
+    init = d["spec"]
+    if core.spec_size(init) < 3:
+        return None
+    edits = H.random_edits(rng, init, rng.randint(1, 4), [], kinds=("move", "move", "move", "reattach", "reorder", "delre"))
+    if not edits:
+        return None
+    final, _order = H.final(init, edits)
+    nd = dict(d, spec=_tolist(final), hist="edits", hinit=init, hedits=edits)
+    n = core.spec_size(nd["spec"])
+    nd["start"] = 0 if d.get("full") or d["start"] == 0 else rng.randrange(n)
+    if d["fmt"] == "nested":
+        dep = depth_of(nd["spec"], nd["start"])
+        if nd.get("md") and nd["md"] < dep:
+            nd["md"] = dep
+    return mk(nd, tuple(case.tags) + ("edit-history",))
 
 
 def _flat_kwargs(d):
@@ -946,10 +998,23 @@ def shrink(case):
             if nd["s"]:
                 yield mk(nd, case.tags)
         return
+    if d.get("hist") == "edits":
+        yield mk({k: v for k, v in d.items() if k not in ("hist", "hinit", "hedits")}, case.tags)   # without the history
+        for k in range(len(d["hedits"])):       # shorter histories (the final tree changes with them)
+            ed = d["hedits"][:k] + d["hedits"][k + 1:]
+            try:
+                fin, _o = H.final(d["hinit"], ed)
+            except Exception:  # noqa: BLE001 - an edit that depended on the dropped one
+                continue
+            nd = dict(d, hedits=ed, spec=_tolist(fin))
+            if nd["start"] < core.spec_size(nd["spec"]):
+                yield mk(nd, case.tags)
     for key, val in (("md", 0), ("sd", 0), ("lo", False), ("pk", ""), ("ad", []), ("al", []), ("la", ""), ("start", 0)):
         if key in d and d[key] != val and not d.get("full"):
             nd = dict(d); nd[key] = val
             yield mk(nd, case.tags)
+    if d.get("hist") == "edits":
+        return
     spec = d["spec"]
     nodes = core.spec_nodes(spec)
     for idx in range(len(nodes) - 1, 0, -1):
